@@ -417,3 +417,7 @@ mod tests {
         assert_eq!(dec_string_id.num, stream_id.num);
     }
 }
+
+#[cfg(libp2p_verif)]
+#[path = "verif_tpt.rs"]
+pub mod verif_tpt;
